@@ -380,6 +380,24 @@ int good_digit_first(const unsigned char * const pointer, size_t * const index)
     return 1;
 }
 
+/* FND1: a depth budget in the search for a node */
+int bad_FND1_find(const cJSON * const object, const cJSON * const target, const size_t depth)
+{
+    const cJSON *child = NULL;
+    if ((object == NULL) || (target == NULL) || (depth >= 1000)) { return 0; }
+    if (object == target) { return 1; }
+    for (child = object->child; child != NULL; child = child->next) { if (bad_FND1_find(child, target, depth + 1)) { return 1; } }
+    return 0;
+}
+int good_find(const cJSON * const object, const cJSON * const target, const size_t depth)
+{
+    const cJSON *child = NULL;
+    if ((object == NULL) || (target == NULL)) { return 0; }
+    if (object == target) { return 1; }
+    for (child = object->child; child != NULL; child = child->next) { if (good_find(child, target, depth + 1)) { return 1; } }
+    return 0;
+}
+
 /* LST1 (relinker calls, stale order) */
 static cJSON *sort_list(cJSON *list, const cJSON_bool case_sensitive) { (void)case_sensitive; if (list && list->next) { cJSON *n = list->next; n->next = list; list->next = NULL; n->prev = NULL; list->prev = n; return n; } return list; }
 static void bad_LST1_sort_same_head(cJSON * const object)
